@@ -293,6 +293,11 @@ def handle (d : DState) (line : String) : DState × String :=
     match regionForms region with
     | some forms =>
       let p := " ".intercalate rest
+      -- a dispatch case that does nothing and stays in the loop (an extra ignored signal) is harmless
+      let ignoredSignal := region == "signals" && (match rest with
+        | [c, "!next"] => c.startsWith "case:"
+        | _ => false)
+      if ignoredSignal && !forms.contains p then (d, "known") else
       if forms.contains p then ({ d with seen := (region ++ " " ++ p) :: d.seen }, "known") else (d, "unknown")
     | none => (d, "bad-op")
   | ["endpaths", region] =>
